@@ -313,6 +313,8 @@ def run(ctx):
             fixed.append(json.load(open(os.path.join(d, f))).get("scenario"))
     jobs = [(tree, i, vlib.subseed(ctx.seed, "c10", i), ctx.n(160, 3000), fixed[i::nw]) for i in range(nw)]
     ctx.stats.merge(vlib.run_workers(worker, jobs))
+    if not ctx.stats.violations:
+        volume(ctx, tree)
 
 
 def replay(ctx, path):
@@ -326,3 +328,79 @@ def replay(ctx, path):
     finally:
         w.close()
     return [v] if v else []
+
+
+# ------------------------------------------------------------------ volume: rewrite()/senderadd() in-process
+SEND_LIBS = ("qsutil.o control.o constmap.o newfield.o prioq.o trigger.o fmtqfn.o quote.o readsubdir.o qmail.o date822fmt.o "
+             "datetime.a case.a ndelay.a getln.a wait.a fd.a sig.a open.a lock.a stralloc.a substdio.a error.a str.a fs.a auto_qmail.o auto_split.o env.a")
+
+
+def build_volume(tree):
+    from lib import inproc
+    tree.make("qmail-send")
+    out = tree.path("c10-rewrite")
+    inproc.link(tree, out, [os.path.join(vlib.VERIF, "inproc/c10_rewrite.c")], inproc.dedup_libs(SEND_LIBS))
+    return out
+
+
+def vol_worker(job):
+    """many configurations x many recipients through the real getcontrols()/rewrite()/senderadd(), compared with route()/verp()"""
+    import subprocess
+    binp, wid, seed, ncfg, nrcp = job
+    stats = vlib.Stats()
+    base = os.path.join(vlib.scratch_root(), "c10v-%d" % wid)
+    os.makedirs(os.path.join(base, "control"), exist_ok=True)
+    p = subprocess.Popen([binp], stdin=subprocess.PIPE, stdout=subprocess.PIPE, stderr=subprocess.DEVNULL,
+                         env=dict(os.environ, ASAN_OPTIONS="detect_leaks=0"), cwd="/")
+    senders = [b"s@other.test", b"", b"list-owner-@host.test-@[]", b"o-@h-@[]", b"-@[]", b"x-@[]", b"#@[]", b"a@b-@[]", b"@-@[]"]
+
+    def ask(line):
+        p.stdin.write(line + b"\n")
+        p.stdin.flush()
+        return p.stdout.readline().rstrip(b"\n")
+
+    def runfn(sc, stats):
+        for f in os.listdir(os.path.join(base, "control")):
+            os.unlink(os.path.join(base, "control", f))
+        for k, v in sc["controls"].items():
+            open(os.path.join(base, "control", k), "wb").write(v.encode("latin-1"))
+        if ask(b"C " + base.encode()) != b"OK":
+            return "getcontrols() failed for %r" % sc["controls"]
+        cfg = cfg_of(sc["controls"])
+        for r in sc["rcpts"]:
+            rb = r.encode("latin-1")
+            if b"\0" in rb or b"\n" in rb:
+                continue
+            ans = ask(b"R " + rb.hex().encode())
+            ch, rew, nrules, hacked, slack = route(rb, cfg)
+            stats.case(nontrivial=nrules >= 2 or hacked, key=(sc["controls"], r), classes=["volume"])
+            if slack:
+                stats.slack += 1
+                continue
+            want = b"%d %s" % (ch, rew.hex().encode())
+            if ans != want:
+                got = ans.split(b" ")
+                return "rewrite(%r) = channel %s %r, documented routing: channel %d %r (controls %r)" % (
+                    rb, got[0], bytes.fromhex(got[1].decode()) if len(got) > 1 else b"", ch, rew, sc["controls"])
+            for s in senders[:3 + len(r) % 6]:
+                a2 = ask(b"S " + s.hex().encode() + b" " + rew.hex().encode())
+                if a2 != b"S " + verp(s, rew).hex().encode():
+                    return "senderadd(%r, %r) = %r, documented %r" % (s, rew, bytes.fromhex(a2[2:].decode()), verp(s, rew))
+        return None
+    scen = st.fixed_dictionaries({"controls": controls_strategy(), "rcpts": st.lists(recipient(), min_size=nrcp, max_size=nrcp)})
+    try:
+        vlib.hyp_search(scen, runfn, ncfg, seed, stats)
+    finally:
+        try:
+            p.stdin.close()
+            p.kill()
+            p.wait()
+        except Exception:
+            pass
+    return stats
+
+
+def volume(ctx, tree):
+    binp = build_volume(tree)
+    jobs = [(binp, i, vlib.subseed(ctx.seed, "c10v", i), ctx.n(400, 6000), 40) for i in range(vlib.NCPU)]
+    ctx.stats.merge(vlib.run_workers(vol_worker, jobs))
